@@ -48,7 +48,11 @@ func (c *C09) AfterRestart(w *World, r *RestartCtx) {
 	}
 	g := r.Gen
 	if g.ExportErr != "" {
-		w.Violate("R1", "export-fails", "exporting the state at height %d fails: %s", r.Pre.Height, firstLine(g.ExportErr))
+		sig := "export-fails"
+		if strings.Contains(g.ExportErr, "invalid UTF-8") {
+			sig = "export-fails/invalid-utf8-string"
+		}
+		w.Violate("R1", sig, "exporting the state at height %d fails: %s", r.Pre.Height, firstLine(g.ExportErr))
 		return
 	}
 	if g.ValidateEco != "" {
